@@ -171,9 +171,22 @@ retry:
 	return statusCode, responseBody, nil
 }
 
+// objectURL returns the URL of an object below the store's location. The name
+// is a path relative to the location, like a chunk's "abcd/abcd….cacnk" or the
+// name of an index. It's not a URL reference: characters like '%', '?', '#' or
+// ':' are part of the name and are escaped as needed.
+func (r *RemoteHTTPBase) objectURL(name string) *url.URL {
+	u := *r.location
+	u.Path = r.location.Path + name
+	u.RawPath = ""
+	u.RawQuery = ""
+	u.Fragment = ""
+	return &u
+}
+
 // GetObject reads and returns an object in the form of []byte from the store
 func (r *RemoteHTTPBase) GetObject(name string) ([]byte, error) {
-	u, _ := r.location.Parse(name)
+	u := r.objectURL(name)
 	statusCode, responseBody, err := r.IssueRetryableHttpRequest("GET", u, func() io.Reader { return nil })
 	if err != nil {
 		return nil, err
@@ -190,7 +203,7 @@ func (r *RemoteHTTPBase) GetObject(name string) ([]byte, error) {
 
 // StoreObject stores an object to the store.
 func (r *RemoteHTTPBase) StoreObject(name string, getReader GetReaderForRequestBody) error {
-	u, _ := r.location.Parse(name)
+	u := r.objectURL(name)
 	statusCode, responseBody, err := r.IssueRetryableHttpRequest("PUT", u, getReader)
 	if err != nil {
 		return err
@@ -228,7 +241,7 @@ func (r *RemoteHTTP) GetChunk(id ChunkID) (*Chunk, error) {
 // HasChunk returns true if the chunk is in the store
 func (r *RemoteHTTP) HasChunk(id ChunkID) (bool, error) {
 	p := r.nameFromID(id)
-	u, _ := r.location.Parse(p)
+	u := r.objectURL(p)
 
 	statusCode, _, err := r.IssueRetryableHttpRequest("HEAD", u, func() io.Reader { return nil })
 	if err != nil {
